@@ -5,6 +5,18 @@ ROOT = os.path.dirname(os.path.dirname(os.path.abspath(__file__)))
 
 # id -> (technique, level text, level note, design ref)
 CLAIMED = {
+ "C02": ("proptest over accepted byte streams (canonical, non-canonical reference encodings, structure-aware and blind mutations); fixpoint oracle read(write(read(b))) == read(b)",
+         "60 000 (quick) / 2 M (thorough) generated streams; those the strict reader accepts from a root element (acceptance rate of mutated streams measured, gate >= 10%) are re-written item by item through TagWriter::write (every call must be Ok) and re-read; the two item sequences must be identical (floats by bits).",
+         "trusted: nothing beyond the harness drivers; rejected streams are outside the property", "4.2"),
+ "C13": ("proptest documents with one injected fault of each class × exhaustive enumeration of all 8 tolerance subsets; plus mutated inputs × 8 subsets (metamorphic prefix relation); exhaustive size-limit threshold table",
+         "10 000 + 10 000 (quick) / 400 000 + 400 000 (thorough) inputs, each read under all 8 subsets of tolerated classes: own-class error kind at the fault's offset when not tolerated, never when tolerated, no raw tags without InvalidTagIds, strict items are a prefix of tolerant items; the size limit's threshold (M passes, M+1 fails, default 4e9 untouched) is enumerated for 6 limits × 5 sizes × 3 widths.",
+         "trusted: reference encoder layout for the fault's offset; faults are built so that the other classes' conditions are false at the faulty element", "4.13"),
+ "C14": ("proptest documents × exhaustive enumeration of every tag boundary as junk insertion point; oracle = undamaged parse shifted by the junk length, precondition decided from the reference layout",
+         "3 000 (quick) / 100 000 (thorough) known-size documents, junk of 1-12 bytes (byte values that start no declared id) inserted at every boundary between two tags and at one random position; with the precondition true: same prefix, exactly one error, try_recover Ok, rest identical with shifted offsets; always: no panic, only EOF/read errors from try_recover, never backwards.",
+         "trusted: reference encoder layout for the precondition; the undamaged parse (anchored by C01/C03)", "4.14"),
+ "C17": ("proptest over element headers with adversarial declared sizes × limits × capacities × tolerance, measured with a counting global allocator (thread-local peak); oracle = explicit byte bounds",
+         "20 000 + 20 000 (quick) / 600 000 + 600 000 (thorough) cases: a header declaring S in every representable width at root / inside known / inside unknown-size parents under limit M: S > M must be rejected with peak heap growth <= 2·cap + 4 KiB and no oversized read request; S <= M with missing payload <= 3·max(S,cap) + 4 KiB; whole parses of arbitrary streams under limit M <= 3·max(M,cap) + 64 KiB.",
+         "trusted: the counting allocator (thread-local); declared sizes within the limit are capped at 4 MiB for cost; only heap is measured", "4.17"),
  "C09": ("proptest over (forest, collapse choices, per-element options, short-write schedule); paired-run byte equality + reference header walk of the output",
          "20 000 (quick) / 600 000 (thorough) generated documents are written in paired presentations (Full vs Start/End, deprecated vs option-based unknown size, explicit widths vs defaults, scripted short-write destination vs Vec); outputs must be byte-identical, explicit widths are read back with the reference header parser and ids/payloads must be unchanged.",
          "trusted: ref_header walk; widths drawn from those that fit", "4.9"),
